@@ -32,7 +32,9 @@ namespace nmtools::index
                 using element_t = meta::get_index_element_type_t<return_t>;
                 auto shape_take_impl = [&](auto i){
                     using common_t = meta::promote_index_t<axis_t,decltype(i)>;
-                    at(res,i) = ((common_t)i == (common_t)axis) ? (element_t)n : (element_t)at(shape,i);
+                    // negative axis counts from the end (numpy)
+                    auto n_axis = ((common_t)axis < 0) ? (common_t)((common_t)axis + (common_t)len(shape)) : (common_t)axis;
+                    at(res,i) = ((common_t)i == n_axis) ? (element_t)n : (element_t)at(shape,i);
                 };
                 [[maybe_unused]] auto dim = len(shape);
                 if constexpr (meta::is_resizable_v<return_t>)
@@ -86,7 +88,16 @@ namespace nmtools::index
             auto take_impl = [&](auto i){
                 auto dst_i = at(index,i);
                 using common_t = meta::promote_index_t<axis_t,decltype(i)>;
-                at(res, i) = ((common_t)i == (common_t)axis) ? at(indices,dst_i) : dst_i;
+                // negative axis and negative entries of indices count from the end (numpy)
+                auto n_axis = ((common_t)axis < 0) ? (common_t)((common_t)axis + (common_t)dim) : (common_t)axis;
+                if ((common_t)i == n_axis) {
+                    auto src_i = at(indices,dst_i);
+                    using src_t   = meta::remove_cvref_t<decltype(at(res,i))>;
+                    using s_src_t = meta::make_signed_t<src_t>;
+                    at(res, i) = (src_i < 0) ? (src_t)((s_src_t)at(shape,i) + (s_src_t)src_i) : (src_t)src_i;
+                } else {
+                    at(res, i) = dst_i;
+                }
             };
             if constexpr (meta::is_fixed_index_array_v<index_t>) {
                 constexpr auto DIM = meta::len_v<index_t>;
